@@ -64,7 +64,9 @@ function validateCall (rec, dm, world) {
           try { if (recv !== null && recv !== undefined && recv[src] === fn) identityOk = true } catch (e) {}
         }
         if (!identityOk) { fails.push({ kind: 'method-wrong-function', detail: `function ${fn.name} is not ${c.srcs.join('/')} of the receiver` }); continue }
-        if (isNative(fn) || isWorldPure(fn)) {
+        // a function among the arguments (a replacer, a callback) is program code: recomputing the call would run it a second
+        // time and disturb the program's state - such calls are validated by identity of function and receiver only
+        if ((isNative(fn) || isWorldPure(fn)) && !args.some(a => typeof a === 'function')) {
           let exp
           try { exp = fn.call(recv, ...args) } catch (e) { fails.push({ kind: 'method-recompute-throws', detail: String(e && e.message).slice(0, 80) }); continue }
           if (!sameValue(exp, rec.res, world)) { fails.push({ kind: 'method-result', detail: `hook got result ${world.sum(rec.res)} but fn.call(receiver, ...args) = ${world.sum(exp)}` }); continue }
@@ -198,7 +200,7 @@ module.exports = {
   id: 'C03',
   level: 'exploration',
   rule: 'dynamic: every rewritten catalogue/random program is executed with recording hooks; for each hook invocation (name, result, operands) an oracle recomputes the original operation from exactly the recorded operands with world logging muted (left + right; substitutions occur in order in the template result; fn.call(receiver, ...args) for native/pure functions, fn being the function the receiver yields for a configured source name) and requires the recorded result to be that value. structural: on every emitted hook site (also corpus files and never-executed paths) the argument list must equal, token for token, the operand list of the first argument in evaluation order, each operand being a single evaluation (identifier/temporary/literal/spread of one). distinct_nontrivial = distinct (input, config) with >= 1 hook site checked. Workload additions: the syntax zoo (49 programs x LF/CRLF/CR line endings), and operation splicing - zoo programs, every seventh catalogue program and every fifth random program also run with further enabled operations grafted onto randomly chosen sub-expressions in a value-preserving way ((x is a primitive ? OP(x) : 0, x)).',
-  assumptions: ['template results are checked by ordered containment of the substitution strings (static chunks are not known at run time; C01 compares the final values)', 'functions with program-visible side effects (callbacks, identity probes) are not re-invoked by the oracle', 'a literal operand is passed to the hook as a second copy of the literal; for a regular-expression literal that is a distinct RegExp object with the same source and flags - accepted as the same operand value'],
+  assumptions: ['template results are checked by ordered containment of the substitution strings (static chunks are not known at run time; C01 compares the final values)', 'functions with program-visible side effects (callbacks, identity probes) are not re-invoked by the oracle, and a native method is not recomputed when one of its arguments is a function of the program (replacer / callback)', 'a literal operand is passed to the hook as a second copy of the literal; for a regular-expression literal that is a distinct RegExp object with the same source and flags - accepted as the same operand value'],
   plan (ctx) { return structPlan(ctx, { quickCorpus: 250, exec: { quickRandom: 2500, quickFormsPerPlacement: 10, thoroughRandom: 30000 } }) },
   minEvaluations () { return 300 },
   async runShard (spec, ctx) {
